@@ -19,6 +19,7 @@ AllFF == Fill(8, 255)
 V1 == <<1, 35, 69, 103, 137, 171, 205, 239>>
 ValBytes(s, c, p) == Mat([i \in 1..(s * c) |-> IF p = 1 THEN 255 ELSE ((i - 1) * 37 + 1) % 256])
 Types == (0..11) \cup (128..139)
+BigCounts == {64, 300, 512}          \* block sizes / 8-bit counters of elements and pairs, in the crossed build too
 Jobs ==
   CASE Scn = "fields" -> { [view |-> v, field |-> f, k |-> k, val |-> x] : v \in XViews, f \in UNION { FieldNames(w) : w \in XViews }, k \in {1, 5}, x \in {AllFF, V1} }
     [] Scn = "init"   -> { [view |-> v, k |-> k] : v \in XViews \cap InitViews, k \in {1, 5, 6} }
@@ -26,7 +27,7 @@ Jobs ==
                              id \in { V64(291), <<0,0,0,0,31,255,255,255>>, <<0,0,0,0,128,0,1,35>> }, fd \in {0, 1}, k \in {1, 5} }
     [] Scn = "strarr" -> { [list |-> l] : l \in { << >>, << <<97>> >>, << <<97, 98, 0>>, << >>, <<99>> >>, << << >>, << >> >> } }
     [] Scn = "vss"    -> { [mode |-> md, dt |-> dt, c |-> c, p |-> p, k |-> k] : md \in {0, 1}, dt \in Types, c \in {0, 1, 3}, p \in {1, 2}, k \in {5} }
-                         \cup { [mode |-> 0, dt |-> dt, c |-> 300, p |-> 2, k |-> 5] : dt \in { t \in Types : IsVar(t) } }
+                         \cup { [mode |-> 0, dt |-> dt, c |-> c, p |-> 2, k |-> 5] : dt \in { t \in Types : IsVar(t) }, c \in BigCounts }
 
 HdrWithX(a, mode, dt) == SetSem(SetSem(a, 2, "Vss", "addr_mode", V64(mode)), 2, "Vss", "vss_datatype", V64(dt))
 vars2 == <<mem, hb, out, step, st, job>>
